@@ -17,7 +17,7 @@
 //!       handler <i> <start> <end> <environment_count>
 //!       ins <pc> <next pc> <opcode byte> <Debug of the decoded instruction>
 //!       end <id>
-//!   d <block id> <frames> <pc> <opcode byte> <stack_extra> <env_depth> <binding_stack>     (run=1; state *before* the instruction)
+//!   d <block id> <frames> <pc> <opcode byte> <stack_extra> <env_depth> <binding_stack> <iterators>     (run=1; state *before* the instruction)
 //!   dcut <records dropped>                                                                  (run=1, log longer than maxlog)
 //!   status <ok|syntax|panic> <detail>
 //!   endcase <id>
@@ -100,7 +100,7 @@ fn run_case(cfg: &Cfg, text: &[u16], out: &mut String) -> String {
                 let _ = writeln!(out, "dcut {}", log.len() - i);
                 break;
             }
-            let _ = writeln!(out, "d {} {} {} {} {} {} {}", d.block, d.frames, d.pc, d.opcode, d.stack_extra, d.env_depth, d.binding_stack);
+            let _ = writeln!(out, "d {} {} {} {} {} {} {} {}", d.block, d.frames, d.pc, d.opcode, d.stack_extra, d.env_depth, d.binding_stack, d.iterators);
         }
     }
     let _ = bh::take_trace();
